@@ -481,7 +481,7 @@ func checkC08(p *Prog, r *Report) {
 	r.Extra["go_statements"] = nGo
 
 	// ---- R8.8 graceful close waits for the handler goroutines -------------------------------------
-	r.Rule("R8.8", "handlerNotifier.Close(graceful=true) waits for the notifier goroutines on every path, including when the notifier was already closed by an earlier non-graceful Close; Agent.close passes the graceful flag to all three notifiers.", 2)
+	r.Rule("R8.8", "handlerNotifier.Close(graceful=true) waits for the notifier goroutines on every path, including when the notifier was already closed by an earlier non-graceful Close; Agent.close passes the graceful flag to all three notifiers, and Close reaches it as the plain, GracefulClose as the graceful close.", 2)
 	checkNotifierGracefulWait(p, r)
 
 	// ---- R8.6 abortable candidates are registered -------------------------------------------------
@@ -748,6 +748,7 @@ func checkNotifierGracefulWait(p *Prog, r *Report) {
 	})
 	r.Check(!escapes, "notifier Close: graceful close always waits", p.Pos(f.Body.Pos()), "every graceful path passes notifiers.Wait()",
 		"a graceful close can return without waiting for the handler goroutines ("+g.describePath(p, path)+"): after an earlier plain Close, GracefulClose returns while a handler is still running and before Closed was delivered")
+	checkCloseModes(p, r)
 	// every function that closes the agent's loop closes the three notifiers with its caller's graceful
 	// flag, or (the flag spelled out per entry point) gracefully exactly in GracefulClose
 	for _, cl := range p.agentClosers() {
@@ -767,6 +768,34 @@ func checkNotifierGracefulWait(p *Prog, r *Report) {
 			what = cl.Name + " closes the three notifiers in its own mode"
 		}
 		r.Check(n == 3, what, p.Pos(cl.Body.Pos()), "3 calls", itoa(n)+" of the three notifiers are closed with the caller's graceful flag")
+	}
+}
+
+// checkCloseModes: Close is the plain close and GracefulClose the graceful one — whoever reaches the shared
+// Agent.close passes the constant of its own mode (part of checkNotifierGracefulWait, C08 R8.8 / C11 R11.4).
+func checkCloseModes(p *Prog, r *Report) {
+	cl := p.Fn("Agent.close")
+	if cl == nil {
+		return // spelled out per entry point: decided with the closers themselves
+	}
+	n := 0
+	for _, e := range p.Callers(cl) {
+		if e.Call == nil || len(e.Call.Args) != 1 {
+			continue
+		}
+		n++
+		v, isConst := p.ConstVal(e.Call.Args[0])
+		want := ""
+		switch e.Caller.Name {
+		case "Agent.Close":
+			want = "false"
+		case "Agent.GracefulClose":
+			want = "true"
+		}
+		r.Check(isConst && want != "" && v == want, "close mode of "+e.Caller.Name, p.Pos(e.Call.Pos()), "Close is plain, GracefulClose is graceful", e.Caller.Name+" closes the agent with graceful="+stripVarLines(p.Canon(e.Call.Args[0]))+": a plain Close that waits for the handlers deadlocks when called from a callback; a GracefulClose that does not wait returns while a handler is still running")
+	}
+	if n < 2 {
+		r.Fail("callers of Agent.close", p.Pos(cl.Body.Pos()), "fewer than the two entry points call Agent.close (rule instance lost)")
 	}
 }
 
